@@ -17,6 +17,7 @@ import SparseV.Lemmas.Validate
 import SparseV.Lemmas.Loops
 import SparseV.Lemmas.NoInternal
 import SparseV.Lemmas.Gen.Bcast
+import SparseV.Lemmas.Gen.Ctor
 import SparseV.Lemmas.Gen.Slicing
 import SparseV.Lemmas.MaskCost
 import SparseV.Lemmas.Width
@@ -303,8 +304,9 @@ theorem indptr_test_is_the_comparison :
     (∀ (t : IdxTy) (p : List Int), decreasesIn t .sliceCompare p = !(nondecreasing p)) := by
   refine ⟨?_, fun _ _ => rfl⟩
   intro ndim sh0 nind rows cols iN imin imax h2
-  have h1 : ndim ≥ 1 := by omega
-  simp [Gen.gcxsCtorChecks, h1, h2]
+  rcases Npz.gcxsCtorChecks_cases 1 iN true true ndim sh0 nind nind (rows + 1) rows cols 0 nind imin imax with h | h
+  · exact absurd (Npz.gcxsCtorChecks_ok_nondecreasing _ _ _ _ _ _ _ _ _ _ _ _ _ _ _ h2 h) (by decide)
+  · exact h
 
 /-- **diff_sign_wraps_unsigned.** What the other spelling would do: `np.diff` of an unsigned array wraps, so index pointers `[0, 3, 1, 3]`
 stored as uint8 / uint16 / uint32 show no negative difference and would be accepted again, although they decrease (and the comparison
